@@ -95,7 +95,7 @@ static void failinject(cJSON *t, int fmt, int cfg)
             al_window(k); s = (ep == 0) ? (fmt ? cJSON_Print(t) : cJSON_PrintUnformatted(t)) : cJSON_PrintBuffered(t, ep == 1 ? 0 : 7, fmt); al_fail_at = 0; failinj_runs++;
             if (s) { viol("C08", "print (entry %d, config %d) succeeded although request %ld of %ld was refused", ep, cfg, k, m); cJSON_free(s); }
             else if (al_live != live0) viol("C08", "print (entry %d, config %d) with request %ld of %ld refused leaves %ld block(s) allocated", ep, cfg, k, m, al_live - live0);
-            if (al_bad_free) { viol("C08", "print (entry %d, config %d) with request %ld of %ld refused: invalid release (double free)", ep, cfg, k, m); al_bad_free = 0; }
+            if (al_bad_free) { viol("C08 C14 C07", "print (entry %d, config %d) with request %ld of %ld refused: invalid release (double free)", ep, cfg, k, m); al_bad_free = 0; }
             if (vb_hash(t, 0) != h0) viol("C08", "print with a refused request modified the tree");
             VD_END();
         }
